@@ -44,6 +44,13 @@ def jobs(tier, seed, prop="C06"):
                 continue
             out.append({"name": f"n{n}-L{L}-{f.describe()}", "blocks": f.blocks, "parent": f.parent, "outliers": f.outliers, "n": n, "L": L,
                         "total": total, "G": 2, "cost": (len(f.blocks) + 2) ** L})
+    if tier == "quick":
+        # four data points in three clones (one two-point clone), two edits: the smallest trees on which a graft of a two-level
+        # subtree can be followed by a data-point move at depth
+        for f in all_forests(4, outliers=False):
+            if len(f.blocks) == 3:
+                out.append({"name": f"n4-L2-{f.describe()}", "blocks": f.blocks, "parent": f.parent, "outliers": f.outliers, "n": 4, "L": 2,
+                            "total": 4, "G": 2, "cost": 30})
     if prop == "C06":
         chain = Forest([[0], [1], [2]], [None, 0, 1], [])
         cherry = Forest([[0, 1], [2]], [None, 0], [])
